@@ -766,6 +766,11 @@ namespace Pistache::Http
 
     std::streamsize ResponseStream::write(const char* data, std::streamsize sz)
     {
+        // A zero-length chunk is the end-of-body marker of the chunked coding:
+        // writing no data must not emit one
+        if (sz <= 0)
+            return 0;
+
         std::ostream os(&buf_);
         os << std::hex << sz << crlf;
         os.write(data, sz);
